@@ -30,13 +30,75 @@ ASSUMPTIONS["C12"] = ["catalogue rows were transcribed by hand from intel-ipsec-
                       "SGL_ALL segment arrays explored up to 2 segments (bounded sub-item, see coverage.bounded)"]
 
 add(Unit(name="c12_is_job_invalid", harness="c12_job_check.c", entry="h_is_job_invalid",
-         props={"C12": "spec+frame", "C06": "tag", "C07": "safety"},
+         props={"C12": "spec+frame", "C07": "safety"},
          enforce=[("is_job_invalid", "contract_is_job_invalid")], unwind=9, timeout=900,
          functions=["is_job_invalid", "imb_set_errno"], sources=["lib/include/mb_mgr_job_check.h", "lib/include/error.h"],
          replay="job_check", min_obligations=2000,
          slice="full symbolic IMB_JOB x cipher_mode x hash_alg x direction x key_len; SGL_ALL arrays <= 2 segments"))
 add(Unit(name="c12_is_job_invalid_light", harness="c12_job_check.c", entry="h_is_job_invalid_light",
-         props={"C12": "spec+frame", "C06": "tag"},
+         props={"C12": "spec+frame"},
          enforce=[("is_job_invalid_light", "contract_is_job_invalid_light")], unwind=9, timeout=600,
          functions=["is_job_invalid_light"], sources=["lib/include/mb_mgr_job_check.h"], replay="job_check",
          slice="all (cipher_mode, hash_alg, direction, key_len) template tuples"))
+
+
+# ---------------------------------------------------------------- per-variant units
+import re, os
+from vlib.core import REPO
+
+ARCHS = {  # variant -> real translation unit; quick tier covers one unit per ISA family
+    "sse_t1": ("sse_t1/mb_mgr_sse_t1.c", "quick"), "sse_t2": ("sse_t2/mb_mgr_sse_t2.c", "thorough"),
+    "sse_t3": ("sse_t3/mb_mgr_sse_t3.c", "thorough"), "avx2_t1": ("avx2_t1/mb_mgr_avx2_t1.c", "thorough"),
+    "avx2_t2": ("avx2_t2/mb_mgr_avx2_t2.c", "quick"), "avx2_t3": ("avx2_t3/mb_mgr_avx2_t3.c", "thorough"),
+    "avx2_t4": ("avx2_t4/mb_mgr_avx2_t4.c", "thorough"), "avx512_t1": ("avx512_t1/mb_mgr_avx512_t1.c", "thorough"),
+    "avx512_t2": ("avx512_t2/mb_mgr_avx512_t2.c", "quick"),
+}
+
+
+def unit_macro(arch, name):
+    """resolve a per-variant #define (e.g. SUBMIT_JOB_CIPHER_ENC) from the real source, each run"""
+    try:
+        src = open(os.path.join(REPO, "lib", ARCHS[arch][0])).read()
+    except OSError:
+        return name
+    m = re.search(r"#define\s+%s\s+(\w+)" % re.escape(name), src)
+    return m.group(1) if m else name
+
+
+# ---------------------------------------------------------------- C06
+SLICES["C06"] = ("table layer on the real per-variant units: every job accepted by the real is_job_invalid() reaches, through "
+                 "calc_cipher_tab_index()/hash_alg (job API) and suite_id (burst API), a dispatcher called with the job's own cipher mode, "
+                 "key size, direction and hash algorithm; AEAD pairings exclusive (shared with C12); suite id = (table index, hash); "
+                 "stage sequencing in submit_new_job/RESUBMIT_JOB")
+ASSUMPTIONS["C06"] = ["kernel identity below the C binding is by symbol name (assembly not modelled)",
+                      "SGL_ALL jobs restricted to <= 2 segments when the acceptance check is evaluated (segments play no role in dispatch)"]
+
+
+def _c06_units():
+    for arch, (f, tier) in ARCHS.items():
+        names = {"D_SUBMIT_ENC": unit_macro(arch, "SUBMIT_JOB_CIPHER_ENC"), "D_SUBMIT_DEC": unit_macro(arch, "SUBMIT_JOB_CIPHER_DEC"),
+                 "D_FLUSH_ENC": unit_macro(arch, "FLUSH_JOB_CIPHER_ENC"), "D_FLUSH_DEC": unit_macro(arch, "FLUSH_JOB_CIPHER_DEC"),
+                 "D_SUBMIT_HASH": unit_macro(arch, "SUBMIT_JOB_HASH_EX"), "D_FLUSH_HASH": unit_macro(arch, "FLUSH_JOB_HASH_EX")}
+        for k in ("128", "192", "256"):
+            names["D_GCM_ENC_" + k] = unit_macro(arch, "AES_GCM_ENC_IV_" + k)
+            names["D_GCM_DEC_" + k] = unit_macro(arch, "AES_GCM_DEC_IV_" + k)
+        for entry in ("h_submit_cipher", "h_flush_cipher", "h_submit_hash", "h_flush_hash", "h_call_suite"):
+            add(Unit(name="c06_%s_%s" % (entry[2:], arch), harness="c06_dispatch.c", entry=entry, props={"C06": "spec"},
+                     dfcc=False, add_library=False,
+                     remove_bodies=[names[k] for k in ("D_SUBMIT_ENC", "D_SUBMIT_DEC", "D_FLUSH_ENC", "D_FLUSH_DEC", "D_SUBMIT_HASH", "D_FLUSH_HASH")],
+                     stub_src=["stubs/c06_dispatch_stubs.c"],
+                     defines=['UNIT_FILE="%s"' % f] + ["%s=%s" % kv for kv in names.items()],
+                     checks=("--no-standard-checks",), unwind=4, timeout=1200, tier=tier,
+                     functions=["SUBMIT_JOB_CIPHER", "FLUSH_JOB_CIPHER", "SUBMIT_JOB_HASH", "FLUSH_JOB_HASH", "calc_cipher_tab_index",
+                                "set_cipher_suite_id", "SET_SUITE_ID_FN", "CALL_SUBMIT_CIPHER", "CALL_FLUSH_CIPHER", "CALL_SUBMIT_HASH",
+                                "CALL_FLUSH_HASH", "tab_submit_cipher[]/tab_flush_cipher[]/tab_submit_hash[]/tab_flush_hash[] wrappers (%s)" % arch],
+                     trusted=["dispatchers %s modelled by their precondition (proved separately in the binding units)" % ", ".join(sorted(set(names.values())))],
+                     sources=["lib/" + f, "lib/include/mb_mgr_job_api.h", "lib/include/mb_mgr_job_check.h"],
+                     min_obligations=20, slice="all accepted descriptors, variant " + arch))
+
+
+_c06_units()
+add(Unit(name="c06_pairing", harness="c12_job_check.c", entry="h_pairing", props={"C06": "spec"}, dfcc=False, add_library=False,
+         checks=("--no-standard-checks",), unwind=4, timeout=600, functions=["is_job_invalid", "is_job_invalid_light"],
+         sources=["lib/include/mb_mgr_job_check.h"], min_obligations=5,
+         slice="AEAD pairing exclusivity for every accepted descriptor / session template"))
